@@ -2058,3 +2058,41 @@ def access_root(fn, local, hops=8):
             continue
         return l
     return l
+
+
+def deciding_switches(f, target_bb):
+    """switch blocks that decide whether `target_bb` is reached: one out-edge can reach it (without passing the switch again),
+    another cannot.  The Ready/Pending switches of awaits are not decisions."""
+    aw = {a.switch_bb for a in f.awaits()} if f.is_coroutine else set()
+    out = []
+    for i in sorted(f.reachable()):
+        t = f.blocks[i]['t']
+        if t['k'] != 'switch' or i in aw:
+            continue
+        if target_bb not in f.reach_from([i]):
+            continue
+        outs = [tg for _, tg in t['vals']] + [t['otherwise']]
+        outs = [x for x in outs if x is not None and f.blocks[x]['t']['k'] != 'unreachable']
+        rr = [target_bb in f.reach_from([x], avoid_enter=[i]) for x in outs]
+        if any(rr) and not all(rr):
+            out.append(i)
+    return out
+
+
+def switch_kind(f, i):
+    """coarse classification of what a switch tests: 'try' (the Continue/Break of `?`), 'result' / 'option' (discriminant of
+    such a value), 'enum:<adt>' or 'value' (with the origins of the operand)"""
+    t = f.blocks[i]['t']
+    l = op_local(t['o'])
+    for (bb, si, kind, r) in f.defs().get(l, []):
+        if kind == 'assign' and r['k'] == 'discr':
+            ty = place_type_str(f, r['p']) or f.locals[r['p'][0]]['s']
+            ty = ty.lstrip('&')
+            if ty.startswith('std::ops::ControlFlow'):
+                return 'try', ty
+            if ty.startswith('std::result::Result'):
+                return 'result', ty
+            if ty.startswith('std::option::Option'):
+                return 'option', ty
+            return 'enum', ty
+    return 'value', origins(f, t['o'])
